@@ -1535,6 +1535,20 @@ def _t8b():
             ob(ex, st, 'C20:kx:%s-built-for(negotiated-suite,received-ClientHello,ServerHello-being-sent)' % cname,
                z3.And(s == suite, T(args[0]) == s, T(args[1]) == T(st.env['clientHello']),
                       T(args[2]) == T(st.env['serverHello'])))
+            # C03 "group/DH size ... lies inside what each side's own HandshakeSettings allow": the finite-field key exchanges
+            # get the server's dhParams and RFC 7919 group list, the EC ones the accepted curves and the default curve
+            sset = T(st.env['settings'])
+            glist = z3.Function('pure__groupNamesToList_2', Val, Val, Val)(attr_t('_groupNamesToList', T(st.env['self'])), sset)
+            if cname in ('DHE_RSAKeyExchange', 'ADHKeyExchange'):
+                k0 = 4 if cname == 'DHE_RSAKeyExchange' else 3
+                ob(ex, st, 'C03:kx:%s-gets-settings.dhParams-and-the-RFC7919-groups-of-the-settings' % cname,
+                   len(args) == k0 + 2 and z3.And(T(args[k0]) == attr_t('dhParams', sset), T(args[k0 + 1]) == T(st.env['dhGroups'])
+                                                  if 'dhGroups' in st.env else z3.BoolVal(False)))
+            if cname in ('ECDHE_RSAKeyExchange', 'AECDHKeyExchange'):
+                k0 = 4 if cname == 'ECDHE_RSAKeyExchange' else 3
+                ob(ex, st, 'C03:kx:%s-gets-the-accepted-curves-and-the-default-curve-of-the-settings' % cname,
+                   len(args) == k0 + 2 and z3.And(T(args[k0]) == T(st.env['acceptedCurves']) if 'acceptedCurves' in st.env else z3.BoolVal(False),
+                                                  T(args[k0 + 1]) == T(st.env['defaultCurve']) if 'defaultCurve' in st.env else z3.BoolVal(False)))
             r = fresh_opaque('keyExchange_' + cname)
             st.ghost['kx_obj'] = r
             return [Outcome('normal', st, r)]
